@@ -78,7 +78,55 @@ def structures(tier, seed):
                 {"X": ["dx_c", "dx_l"], "Y": ["dy_c"], "Z": ["dz_c"]}, {"XY": ["a_cc", "a_lc"], "YZ": ["yz_cc"], "X": ["dx_l"], "Z": ["dz_c"]}):
         out.append(dict(part="metric", sid="metric;" + C10.reg_sid({tuple(k): v for k, v in reg.items()}), reg=reg))
     out.append(dict(part="canary", sid="canary;order-dependent-function"))
+    # [bounded] the same link table / width mapping LISTED in different orders (faces, axes inside a face, keys of boundary_width), on
+    # the real constructor, real xarray and real pad: the results are compared with each other, corners included
+    for k in range(12 if tier == "thorough" else 4):
+        out.append(dict(part="native-listing", sid=f"rnd:native-listing[bounded];{k}", rseed=1000 * int(seed) + k))
+    out.append(dict(part="native-listing", sid="native-listing[bounded];two-face-ring", rseed=-1))
     return out
+
+
+def run_native_listing(s):
+    import random
+    import time
+
+    import numpy as np
+    from harness import native_pad as NP
+    t0 = time.time()
+    rng = random.Random(s["rseed"])
+    if s["rseed"] < 0:
+        table = {0: {"X": (None, (1, "X", False)), "Y": ((1, "Y", True), None)}, 1: {"X": ((0, "X", False), None), "Y": ((0, "Y", True), None)}}
+    else:
+        table = NP.random_table(rng, rng.choice((2, 3, 4)))
+    faces = list(table)
+    bad, ncmp = [], 0
+    for kind in (None, "X"):
+        Wv = {"X": (1, 2), "Y": (2, 1)}
+        rules = [{"X": "extend", "Y": "fill"}, {"X": "fill", "Y": "extend"}, {"X": "extend", "Y": "extend"}][rng.randrange(3)]
+        ref = NP.check_table(table, kind, Wv, rules, N=3, return_output=True)
+        for trial in range(4):
+            fo = faces[:]
+            rng.shuffle(fo)
+            if trial == 0:
+                fo = faces[::-1]
+            ao = ["Y", "X"] if trial % 2 == 0 else ["X", "Y"]
+            Wl = {a: Wv[a] for a in (["Y", "X"] if trial < 2 else ["X", "Y"])}
+            got = NP.check_table(table, kind, Wl, {a: rules[a] for a in reversed(list(rules))}, N=3, return_output=True, face_order=fo, axis_order=ao)
+            ncmp += 1
+            same = (isinstance(ref, str) and ref == got) or (not isinstance(ref, str) and not isinstance(got, str) and set(ref.dims) == set(got.dims)
+                                                              and np.array_equal(ref.values, got.transpose(*ref.dims).values))
+            if not same:
+                bad.append({"table": {str(f): {a: [None if l is None else list(l) for l in lr] for a, lr in d.items()} for f, d in table.items()}, "kind": kind, "face_order": fo,
+                            "axis_order": ao, "width_keys": list(Wl), "rules": rules})
+                break
+        if bad:
+            break
+    rec = {"fn": "padding.pad[bounded, real xarray]", "clause": "same-result-for-every-listing-order-of-the-table-and-of-boundary_width", "status": "failed" if bad else "proved",
+           "time": time.time() - t0, "detail": f"{ncmp} listings compared" if not bad else f"faces listed {bad[0]['face_order']}, axes {bad[0]['axis_order']}, width keys {bad[0]['width_keys']}"}
+    if bad:
+        rec["witness"] = {"part": "native-listing", "case": bad[0]}
+    return {"sid": s["sid"], "obligations": [rec], "paths": 0, "queries": 0, "solver_time": 0.0, "engine_errors": [], "covers": {"native-listing": 1},
+            "counts": {"bounded_standin_evaluations": ncmp}}
 
 
 def side_conditions():
@@ -264,7 +312,7 @@ def run_canary(s):
 
 
 def run_structure(s):
-    return {"pad": run_pad, "equiv": run_equiv, "parse": run_parse, "metric": run_metric, "canary": run_canary}[s["part"]](s)
+    return {"pad": run_pad, "equiv": run_equiv, "parse": run_parse, "metric": run_metric, "canary": run_canary, "native-listing": run_native_listing}[s["part"]](s)
 
 
 REQUIRED_COVERS = ["padded", "parsed", "metric", "equiv"]
@@ -287,6 +335,17 @@ def _multi_seed(code, seeds=range(24)):
 def replay(ob):
     wit = ob.get("witness") or {}
     part = wit.get("part")
+    if part == "native-listing":
+        import numpy as np
+        from harness import native_pad as NP
+        c = wit["case"]
+        table = {int(f): {a: tuple(None if l is None else (l[0], l[1], bool(l[2])) for l in lr) for a, lr in d.items()} for f, d in c["table"].items()}
+        Wv = {"X": (1, 2), "Y": (2, 1)}
+        ref = NP.check_table(table, c["kind"], Wv, c["rules"], N=3, return_output=True)
+        got = NP.check_table(table, c["kind"], {a: Wv[a] for a in c["width_keys"]}, c["rules"], N=3, return_output=True, face_order=c["face_order"], axis_order=c["axis_order"])
+        same = (isinstance(ref, str) and ref == got) or (not isinstance(ref, str) and not isinstance(got, str) and np.array_equal(ref.values, got.transpose(*ref.dims).values))
+        return {"confirmed": not same, "text": f"table {table}: listed as given vs faces in the order {c['face_order']}, axes {c['axis_order']}, boundary_width keys {c['width_keys']}: "
+                + ("identical results" if same else "DIFFERENT results on the real code")}
     if part == "pad":
         s5 = wit["s5"]
         code = f"""
